@@ -28,6 +28,7 @@ import (
 	"github.com/tsawler/tabula/odt"
 	"github.com/tsawler/tabula/pptx"
 	"github.com/tsawler/tabula/rag"
+	"github.com/tsawler/tabula/xlsx"
 
 	"verifharness/fw"
 	"verifharness/gen/epubw"
@@ -249,6 +250,98 @@ func (pptxBackend) Markdown(c *fw.Ctx, id string, d *logical.Doc, r *rand.Rand, 
 	return md, err
 }
 
+// xlsxBackend: every table of the document becomes one worksheet (cells as
+// inline / shared strings, merged regions from the spans), rendered through
+// tabula.Open(x.xlsx).ToMarkdownWithOptions or xlsx.Reader.Markdown. Only the
+// tables are compared (a workbook has no headings, lists or body paragraphs).
+type xlsxBackend struct{}
+
+func (xlsxBackend) Name() string { return "xlsx" }
+func (xlsxBackend) Profile(r *rand.Rand) logical.Profile {
+	return logical.Profile{MinBlocks: 1, MaxBlocks: 3, Tables: true, MaxRows: 8, MaxCols: 8, Spans: true, MultiPara: true,
+		EmptyCells: true, CellSpecials: true, Tab: true, Break: true, Sym: true, Pipes: true, Backslash: true, XMLChars: true, BlockBias: "tables", Styles: 2}
+}
+func (xlsxBackend) Expect(o *MDOpts)                        { o.NoHeadings, o.NoLists = true, true }
+func (xlsxBackend) UsesOptions() bool                       { return false }
+func (xlsxBackend) Triggers(d *logical.Doc) map[string]bool { return nil }
+
+// Normalize keeps the tables only and makes every table start with a token (the
+// comparison finds a table by its first token) — a sheet holds nothing else.
+func (xlsxBackend) Normalize(d *logical.Doc) {
+	var keep []logical.Block
+	for _, b := range d.Blocks {
+		if b.Kind != logical.BTable || b.Table.FirstToken() == "" {
+			continue
+		}
+		// a sheet has no size of its own: its grid ends with the last row / column
+		// that holds a value, so tables beginning or ending with an empty row or column are left out
+		g := b.Table.Grid()
+		lastRow, lastCol, firstRow, firstCol := false, false, false, false
+		for cc := range g[len(g)-1] {
+			lastRow = lastRow || strings.TrimSpace(g[len(g)-1][cc]) != ""
+			firstRow = firstRow || strings.TrimSpace(g[0][cc]) != ""
+		}
+		for rr := range g {
+			lastCol = lastCol || strings.TrimSpace(g[rr][len(g[rr])-1]) != ""
+			firstCol = firstCol || strings.TrimSpace(g[rr][0]) != ""
+		}
+		if lastRow && lastCol && firstRow && firstCol {
+			keep = append(keep, b)
+		}
+	}
+	d.Blocks = keep
+}
+func (xlsxBackend) Markdown(c *fw.Ctx, id string, d *logical.Doc, r *rand.Rand, neutral map[string]bool, o rag.MarkdownOptions) (string, error) {
+	wb := &ooxml.XWorkbook{Styles: r.Intn(2) == 0}
+	n := 0
+	for bi := range d.Blocks {
+		t := d.Blocks[bi].Table
+		if d.Blocks[bi].Kind != logical.BTable || t == nil {
+			continue
+		}
+		n++
+		sh := ooxml.XSheet{Name: fmt.Sprintf("T%d", n), Part: fmt.Sprintf("xl/worksheets/sheet%d.xml", n), RID: fmt.Sprintf("rId%d", n), SheetID: n, Dimension: r.Intn(2) == 0}
+		g := t.Grid()
+		for rr := 0; rr < t.NRows; rr++ {
+			for cc := 0; cc < t.NCols; cc++ {
+				cell := t.Cells[rr][cc]
+				if cell == nil {
+					continue
+				}
+				kind := []ooxml.XKind{ooxml.XShared, ooxml.XInline}[r.Intn(2)]
+				if g[rr][cc] == "" {
+					kind = ooxml.XBlank
+				}
+				sh.Cells = append(sh.Cells, ooxml.XCell{Col: cc, Row: rr, Kind: kind, V: g[rr][cc]})
+				if cell.RowSpan > 1 || cell.ColSpan > 1 {
+					sh.Merges = append(sh.Merges, ooxml.XMerge{C0: cc, R0: rr, C1: cc + max(1, cell.ColSpan) - 1, R1: rr + max(1, cell.RowSpan) - 1})
+				}
+			}
+		}
+		// the used range reaches the last grid row / column also when those hold no value
+		sh.Cells = append(sh.Cells, ooxml.XCell{Col: t.NCols - 1, Row: t.NRows - 1, Kind: ooxml.XBlank})
+		wb.Sheets = append(wb.Sheets, sh)
+	}
+	if n == 0 {
+		return "", nil
+	}
+	path := filepath.Join(c.Work, strings.NewReplacer(":", "_", "#", "_", "/", "_").Replace(id)+".xlsx")
+	if err := os.WriteFile(path, ooxml.PartZip(wb.Members(r)), 0o644); err != nil {
+		return "", err
+	}
+	defer os.Remove(path)
+	if r.Intn(2) == 0 {
+		rd, err := xlsx.Open(path)
+		if err != nil {
+			return "", err
+		}
+		defer rd.Close()
+		return rd.Markdown()
+	}
+	md, _, err := tabula.Open(path).ToMarkdownWithOptions(o)
+	return md, err
+}
+
 // htmlBackend: the document written as an HTML page, rendered through
 // tabula.FromHTMLString(...).ToMarkdownWithOptions or tabula.Open(x.html).
 type htmlBackend struct{}
@@ -401,6 +494,7 @@ func Backends() []Backend {
 		ragBackend{},
 		pptxBackend{},
 		htmlBackend{},
+		xlsxBackend{},
 	}
 }
 
